@@ -46,6 +46,10 @@ func main() {
 			usage()
 		}
 		common.Exit(runReplay(os.Args[2]))
+	case "liststeps":
+		var n int
+		fmt.Sscan(os.Args[3], &n)
+		listSteps(os.Args[2], n)
 	case "listcases":
 		// vsim listcases <prop> <n>: the initial packages of the first n histories of engine C (no execution)
 		var n int
